@@ -184,23 +184,24 @@ func (p nonLocalPeer) IsLocal() bool { return false }
 
 // Sess is a hand-driven WAMP client attached to the simulated router.
 type Sess struct {
-	grp     *simrt.Group
-	W       *World
-	Idx     int
-	Name    string
-	Realm   wamp.URI
-	Cli     wamp.Peer // client end
-	Rtr     wamp.Peer // router end (possibly wrapped)
-	Local   bool
-	QSize   int
-	ID      wamp.ID
-	Welcome *wamp.Welcome
-	Abort   *wamp.Abort
-	Hello   wamp.Dict
-	Joined  bool
-	Left    bool // harness ended it (GOODBYE or close)
-	AttErr  error
-	attDone bool
+	grp               *simrt.Group
+	StallAt, ResumeAt []time.Duration // when the client stopped / resumed reading
+	W                 *World
+	Idx               int
+	Name              string
+	Realm             wamp.URI
+	Cli               wamp.Peer // client end
+	Rtr               wamp.Peer // router end (possibly wrapped)
+	Local             bool
+	QSize             int
+	ID                wamp.ID
+	Welcome           *wamp.Welcome
+	Abort             *wamp.Abort
+	Hello             wamp.Dict
+	Joined            bool
+	Left              bool // harness ended it (GOODBYE or close)
+	AttErr            error
+	attDone           bool
 
 	Inbox            []Rcv
 	RecvClosed       bool
@@ -382,6 +383,7 @@ func (s *Sess) drain() {
 func (s *Sess) Stall() {
 	if !s.drainDone && !s.Stalled {
 		s.Stalled = true
+		s.StallAt = append(s.StallAt, s.W.S.Elapsed())
 		select {
 		case s.ctl <- ctlStall:
 		case <-s.Dead:
@@ -393,6 +395,7 @@ func (s *Sess) Stall() {
 func (s *Sess) Resume() {
 	if !s.drainDone && s.Stalled {
 		s.Stalled = false
+		s.ResumeAt = append(s.ResumeAt, s.W.S.Elapsed())
 		select {
 		case s.ctl <- ctlResume:
 		case <-s.Dead:
